@@ -4,7 +4,7 @@ CONSTANTS
   NB2 = 2
   XS1 <- X1_A
   XS2 <- X2_A
-  FS2 <- FS2_A
+  FS2 <- FS2_One
   ParamSet <- PS_Quick
   MaxSteps = 5
   MaxRuns = 2
